@@ -9,6 +9,9 @@ import PyamgV.Proofs.C19Bsr
 import PyamgV.Proofs.C19Trunc
 import PyamgV.Proofs.ExtC19Trunc
 import PyamgV.Proofs.ExtC19Inv
+import PyamgV.Proofs.ExtC19bBlock
+import PyamgV.Proofs.ExtC19bInst
+import PyamgV.Proofs.ExtC19bCoo
 
 /-! # C19 — matrix utilities compute their stated algebraic result
 
@@ -115,6 +118,57 @@ restate filter_operator_flag := PyamgV.C19.filterOp_flag
 /-- real-transpose form for a whole matrix (shared with C10) -/
 restate proj_constraint := PyamgV.proj_constraint
 
+/-! ### (E26) the block pseudo-inverse certificate can never fail -/
+/-- (E26) `Mat.rref` (the Gauss-Jordan reduction of `Mat.inv` and `Mat.pinvCand`) on every shaped input:
+pivot columns are unit vectors, rows below the rank vanish on the reduced columns, the result is row
+equivalent to the input in both directions (`M = L E`, `E = P M`) -/
+restate rref_spec := PyamgV.C19.rref_spec
+/-- (E26) the executable inverse succeeds on EVERY regular matrix (`det != 0`) and is a left inverse
+(`model_inverse_exact` was: if it succeeds it is exact) -/
+restate model_inverse_total := PyamgV.C19.Mat.inv_total
+/-- (E26) algebra: `A = C F`, `Z1 (F F^H) = 1`, `Z2 (C^H C) = 1` give the four Penrose equations for
+`F^H Z1 Z2 C^H` -/
+restate penrose_of_rank_factorisation := PyamgV.C19.penrose_of_rank_fact
+/-- (E26) `B^H B` is regular when `B` has a left inverse and the conjugation is positive definite -/
+restate gram_regular := PyamgV.C19.gram_det_ne_zero
+/-- (E26) the Boolean Penrose check of the model is the Mathlib-matrix statement `IsPenrose` of
+`penrose_unique` (rectangular inputs) -/
+restate model_penrose_check_is_mathlib := PyamgV.C19.isPenrose_toMx
+/-- (E26) the rank-factorisation candidate exists for every rectangular input and is the Moore-Penrose
+inverse of the Mathlib matrix of the input -/
+restate pinv_candidate_spec := PyamgV.C19.pinvCand_spec
+/-- (E26) **`pinv_total`**: for every rectangular `n x m` input, `n, m >= 1`, over a field with a positive
+definite conjugation (`IsConj`: additive, multiplicative, involutive, `sum conj(v_i) v_i = 0 -> v = 0`),
+`Mat.pinv conj A = some X`, `X` passes `Mat.isPenrose` and is the only `m x n` matrix that does:
+`model_pinv_is_penrose` is unconditional and the driver reply `fail` is unreachable -/
+restate pinv_total := PyamgV.C19.pinv_total
+restate pinv_total_equations := PyamgV.C19.pinv_total_equations
+restate pinv_total_rect := PyamgV.C19.pinv_total_rect
+/-- (E26) the two conjugations the driver uses: `id` on `Rat`, `CRat.conj` on the Gaussian rationals -/
+restate conj_id_rat := PyamgV.C19.isConj_id_rat
+restate conj_crat := PyamgV.C19.isConj_crat
+restate pinv_total_rat := PyamgV.C19.pinv_total_rat
+restate pinv_total_crat := PyamgV.C19.pinv_total_crat
+/-- (E26) `get_block_diag(inv_flag=True)` model: never fails, entry `k` is the unique solution of the
+Penrose equations for the diagonal block `k` -/
+restate block_diag_inv_total := PyamgV.C19.blockDiagInv_total
+/-- (E26) ... which is the inverse for a regular block -/
+restate pinv_of_inverse := PyamgV.C19.pinv_of_inverse
+/-- (E26) `scale_block_inverse` model: never fails, returns `(D A, D)`, `D` block diagonal with the
+Moore-Penrose inverses of the diagonal blocks -/
+restate scale_block_inverse_spec := PyamgV.C19.scaleBlockInverse_spec
+
+/-! ### (E26) COO / fallback branch of `scale_rows` / `scale_columns` -/
+/-- (E26) `csr_array(A)` of a COO matrix (model `cooCsr`: canonical format, duplicates summed) keeps every
+matrix entry; its rows have strictly ascending columns -/
+restate coo_tocsr_entry := PyamgV.C19.cooCsr_entry
+restate coo_tocsr_canonical := PyamgV.C19.cooCsrRow_sorted
+/-- (E26) the fallback branch computes `diag(v) A` / `A diag(v)` entry by entry for every COO input
+(unsorted, duplicated, explicit zeros) -/
+restate coo_scale_rows_entry := PyamgV.C19.cooScale_rows_entry
+restate coo_scale_cols_entry := PyamgV.C19.cooScale_cols_entry
+restate coo_scale_idx := PyamgV.C19.cooScale_idx
+
 /-! ### spectral radius estimate -/
 /-- every Ritz value of a symmetric operator w.r.t. an orthonormal basis is bounded by the Rayleigh
 bound: in exact arithmetic the estimate never exceeds the spectral radius -/
@@ -146,5 +200,25 @@ example : bsrExpand (α := Rat) 2 1 (bsrScaleRows 2 1 #[2, 3] [[(0, #[1, 5])]]) 
 open PyamgV.C19 in
 example : symRescale (α := Rat) sqrtAbsQ? 2 [[(0, 4), (1, 2)], [(1, -16), (0, 8)]]
     = some ([2, 4], [1/2, 1/4], [[(0, 1), (1, 1/4)], [(1, -1), (0, 1)]]) := by decide +kernel
+
+/-- (E26) rectangular rank-one input: hypotheses of `pinv_total_rat` hold (`Shaped 3 2`), the model returns
+the Moore-Penrose inverse -/
+example : PyamgV.C19.Shaped 3 2 (#[#[1, 2], #[2, 4], #[0, 0]] : PyamgV.C19.Mat Rat)
+    ∧ PyamgV.C19.Mat.pinv (α := Rat) id #[#[1, 2], #[2, 4], #[0, 0]]
+      = some #[#[1/25, 2/25, 0], #[2/25, 4/25, 0]] := by
+  refine ⟨⟨rfl, fun i hi => ?_⟩, by decide +kernel⟩
+  match i, hi with
+  | 0, _ => rfl
+  | 1, _ => rfl
+  | 2, _ => rfl
+/-- (E26) complex rank-one block -/
+example : PyamgV.C19.Mat.pinv (α := CRat) CRat.conj #[#[⟨1, 0⟩, ⟨0, 1⟩], #[⟨0, 1⟩, ⟨-1, 0⟩]]
+    = some #[#[⟨1/4, 0⟩, ⟨0, -1/4⟩], #[⟨0, -1/4⟩, ⟨-1/4, 0⟩]] := by decide +kernel
+/-- (E26) `scale_block_inverse` with a singular block -/
+example : PyamgV.C19.scaleBlockInverse (α := Rat) id 1 #[#[2, 1], #[3, 0]]
+    = some (#[#[1, 1/2], #[0, 0]], #[#[1/2, 0], #[0, 0]]) := by decide +kernel
+/-- (E26) COO fallback: unsorted triples with a duplicated position -/
+example : PyamgV.C19.cooScale (α := Rat) true #[2, 1/2] 2 [(1, 0, 3), (0, 1, 2), (1, 0, 1), (0, 0, 5)]
+    = [[(0, 10), (1, 4)], [(0, 2)]] := by decide +kernel
 
 end PyamgV.Props.C19
